@@ -100,6 +100,11 @@ def gen_c10(rng, tier, n):
         lines.append("read - %d" % lim)
         for _ in range(napp.get(cur, 0) // lim + 2):
             lines.append("read @next %d" % lim)
+        if napp.get(cur, 0) >= 2 and rng.random() < 0.3:
+            # a saved offset is whatever was saved last: forwards, backwards, back to the oldest offset
+            hi = rng.randrange(1, napp[cur]); lo = rng.randrange(hi)
+            sid = rng.choice(["s1", "rewind"])
+            lines += ["save %s @a%d" % (sid, hi), "load %s" % sid, "save %s @a%d" % (sid, lo), "load %s" % sid, "save %s -" % sid, "load %s" % sid]
         if rng.random() < 0.12:
             # separately created stores, closed in creation order: A, B, close A, C – C starts empty and B keeps its events
             lines += ["use 4", "append %d" % (rec + 1), "use 5", "append %d" % (rec + 2), "drop 4", "use 6", "read - 0", "append %d" % (rec + 3),
